@@ -39,7 +39,7 @@ CASE_TIMEOUT = 6
 
 def space(tier):
     b = BOUNDS[tier]
-    g1 = G.Grammar(accs=("acc1",), calls=("CALL", "CALLN"), ifp=True, whiles=True, max_depth=b["nesting"])
+    g1 = G.Grammar(accs=("acc1",), calls=("CALL", "CALLN"), ifp=True, whiles=True, max_depth=b["nesting"], cfor=[(0, 2, 1), (3, 3, 1)])
     p1 = [p for p in g1.programs(b["nodes"]) if G.has_launch(p)]
     seen = set(p1)
     g2 = G.Grammar(accs=("acc1", "acc2"), calls=("CALL", "LLVMCALL"), whiles=True, max_depth=b["nesting"])
